@@ -14,7 +14,13 @@
 #include <QSettings>
 #include <QTimer>
 
+#include <memory>
+
 #include <cstdio>
+#include <condition_variable>
+#include <functional>
+#include <mutex>
+#include <thread>
 
 #include "qtlogger/qtlogger.h"
 
@@ -42,6 +48,47 @@ static void emitMessage(int type, const QString &cat, const QByteArray &text)
     default: if (c) qCCritical((*c), "%s", text.constData()); else qCritical("%s", text.constData()); break;
     }
 }
+
+// A persistent worker thread that runs one task at a time while the caller waits: messages keep their stream order, but come
+// from different threads (the pretty layout labels threads, the logger records the originating thread).
+struct Lane
+{
+    std::mutex m;
+    std::condition_variable cv;
+    std::function<void()> task;
+    bool has = false, done = false, quit = false;
+    std::thread th;
+    Lane() : th([this] { loop(); }) { }
+    void loop()
+    {
+        std::unique_lock<std::mutex> l(m);
+        for (;;) {
+            cv.wait(l, [&] { return has || quit; });
+            if (quit) return;
+            l.unlock();
+            task();
+            l.lock();
+            has = false;
+            done = true;
+            cv.notify_all();
+        }
+    }
+    void run(std::function<void()> f)
+    {
+        std::unique_lock<std::mutex> l(m);
+        task = std::move(f);
+        has = true;
+        done = false;
+        cv.notify_all();
+        cv.wait(l, [&] { return done; });
+    }
+    ~Lane()
+    {
+        { std::lock_guard<std::mutex> l(m); quit = true; }
+        cv.notify_all();
+        th.join();
+    }
+};
 
 // ------------------------------------------------------------------------------------------------ history mode
 static QString g_lastReceiver;
@@ -132,9 +179,16 @@ int main(int argc, char **argv)
         if (a.contains("async")) gQtLogger.configure(path, a["size"].toInt(), a["count"].toInt(), opt, a["async"].toBool());
         else gQtLogger.configure(path, a["size"].toInt(), a["count"].toInt(), opt);
     }
-    for (auto mv : sc["messages"].toArray()) {
-        const QJsonObject m = mv.toObject();
-        emitMessage(m["type"].toInt(), m["cat"].toString(), m["text"].toString().toUtf8());
+    {
+        std::unique_ptr<Lane> lanes[3];
+        for (auto mv : sc["messages"].toArray()) {
+            const QJsonObject m = mv.toObject();
+            const int thr = qBound(0, m["thr"].toInt(), 3);
+            auto emitIt = [&] { emitMessage(m["type"].toInt(), m["cat"].toString(), m["text"].toString().toUtf8()); };
+            if (thr == 0) { emitIt(); continue; }
+            if (!lanes[thr - 1]) lanes[thr - 1].reset(new Lane);
+            lanes[thr - 1]->run(emitIt);
+        }
     }
     QTimer::singleShot(0, &app, &QCoreApplication::quit);
     const int rc = app.exec();
